@@ -31,6 +31,15 @@ func transactionStrategyExt(sync bool) *gnmi_ext.Extension {
 	return &gnmi_ext.Extension{Ext: &gnmi_ext.Extension_RegisteredExt{RegisteredExt: &gnmi_ext.RegisteredExtension{Id: configapi.TransactionStrategyExtensionID, Msg: b}}}
 }
 
+func isolationExt() *gnmi_ext.Extension {
+	s := configapi.TransactionStrategy{Isolation: configapi.TransactionStrategy_SERIALIZABLE}
+	b, err := s.Marshal()
+	if err != nil {
+		panic(err)
+	}
+	return &gnmi_ext.Extension{Ext: &gnmi_ext.Extension_RegisteredExt{RegisteredExt: &gnmi_ext.RegisteredExtension{Id: configapi.TransactionStrategyExtensionID, Msg: b}}}
+}
+
 // GoCall runs an arbitrary northbound call on its own goroutine.
 func (w *World) GoCall(ctx context.Context, f func(ctx context.Context) (interface{}, error)) *Call {
 	ctx, cancel := context.WithCancel(ctx)
